@@ -60,6 +60,8 @@ def smap_case(draw):
     news = draw(st.lists(st.integers(0, 200), min_size=len(keep), max_size=len(keep), unique=True))
     if draw(st.booleans()):
         news = sorted(news)
+    if draw(st.integers(0, 11)) == 0:
+        keep, news = [], []  # the empty mapping: every op was dropped
     pairs = [[o, n_] for o, n_ in zip(keep, news)]
     # the mapping is a dict: the order in which the caller filled it is part of the input (drawn)
     if pairs and draw(st.booleans()):
@@ -239,11 +241,20 @@ def evaluate(case, stt):
 
 def _rewrite_check(sm, before, remap, fails, tag):
     exp = ref_rewrite(before, remap)
+    sm.serialize()  # the object has been stored once before it is rewritten (what a caller with a saved map does)
     _, exc = call_guard(lambda: sm.rewrite_offsets(dict(remap)))
     if exc is not None:
         fails.append(Failure("rewrite:" + exc[0], exc[1]))
         return
     got = fields(sm)
+    # what is stored after the rewrite is the rewritten map
+    from explorerscript.source_map import SourceMap
+
+    again, exc = call_guard(lambda: fields(SourceMap.deserialize(sm.serialize())))
+    if exc is not None:
+        fails.append(Failure("rewrite:store_after_rewrite:" + exc[0], exc[1]))
+    elif again != got:
+        fails.append(Failure("rewrite:store_after_rewrite", f"[{tag}] serialize() after rewrite_offsets() does not describe the rewritten map: {again!r} vs {got!r}"[:600]))
     if got[0] != exp[0]:
         fails.append(Failure("rewrite:op_entries", f"[{tag}] expected {exp[0]!r} got {got[0]!r}"[:500]))
     gm = dict(got[1])
